@@ -1,6 +1,7 @@
 import NanoVerif.Model.Valid
 import NanoVerif.Props.C14
 import NanoVerif.Props.C02
+import Mathlib.Data.List.Basic
 /-
 C07 — Every emitted font is structurally valid for its consumers.
 `validFont` (Model/Valid.lean) is the executable statement; it is evaluated by the driver on the
@@ -53,5 +54,124 @@ theorem consecutive_run_ok : ∀ (r : List Nat) (a : Nat), C14.Consecutive (a ::
 /-! non-vacuity: a small well-formed abstraction passes, a cross-glyph reference fails -/
 example : docOk ⟨3, 4, ["glyph3", "p", "glyph4"], ["p"], [⟨3, ["glyph3"], ["p"]⟩, ⟨4, ["glyph4"], []⟩]⟩ = true := by decide +kernel
 example : docOk ⟨3, 4, ["glyph3", "p", "glyph4"], ["p"], [⟨3, ["glyph3", "p"], []⟩, ⟨4, ["glyph4"], ["p"]⟩]⟩ = false := by decide +kernel
+
+
+/-- glyph id of a glyph in an order -/
+def gidIn (order : List String) (g : String) : Nat := order.idxOf g
+
+/-- `(min(gids), max(gids))` of a group, as `_picosvg_docs` computes the record of its document (`none` for an empty group) -/
+def docRange (order : List String) (grp : List String) : Option (Nat × Nat) :=
+  match grp.map (gidIn order) with
+  | [] => none
+  | x :: xs => some (xs.foldl min x, xs.foldl max x)
+
+theorem idxOf_append_right_of_notMem {a : String} : ∀ (l1 l2 : List String), a ∉ l1 → (l1 ++ l2).idxOf a = l1.length + l2.idxOf a
+  | [], l2, _ => by simp
+  | x :: l1, l2, h => by
+    have hx : x ≠ a := fun e => h (e ▸ List.mem_cons_self)
+    have h' : a ∉ l1 := fun m => h (List.mem_cons_of_mem _ m)
+    simp only [List.cons_append, List.length_cons]
+    rw [List.idxOf_cons_ne _ hx, idxOf_append_right_of_notMem l1 l2 h']
+    omega
+
+/-- members of a duplicate-free block, placed after a prefix that contains none of them, get consecutive ids -/
+theorem gids_block (pre grp post : List String) (hnd : grp.Nodup) (hdis : ∀ g ∈ grp, g ∉ pre) :
+    grp.map (gidIn (pre ++ grp ++ post)) = List.range' pre.length grp.length := by
+  induction grp generalizing pre with
+  | nil => simp
+  | cons g gs ih =>
+    have hg : g ∉ pre := hdis g List.mem_cons_self
+    have hnd' := (List.nodup_cons.mp hnd)
+    simp only [List.map_cons, List.length_cons, List.range'_succ]
+    congr 1
+    · simp only [gidIn]
+      rw [List.append_assoc, idxOf_append_right_of_notMem pre _ hg]
+      simp
+    · have e : pre ++ (g :: gs) ++ post = (pre ++ [g]) ++ gs ++ post := by simp
+      rw [e]
+      have := ih (pre ++ [g]) hnd'.2 (by
+        intro x hx hm
+        rcases List.mem_append.mp hm with hm | hm
+        · exact hdis x (List.mem_cons_of_mem _ hx) hm
+        · simp only [List.mem_singleton] at hm; subst hm; exact hnd'.1 hx)
+      simpa using this
+
+theorem foldl_min_range' : ∀ (n s x : Nat), x ≤ s → (List.range' s n).foldl min x = x
+  | 0, _, _, _ => rfl
+  | n + 1, s, x, h => by
+    simp only [List.range'_succ, List.foldl_cons]
+    rw [Nat.min_eq_left h]
+    exact foldl_min_range' n (s + 1) x (by omega)
+
+theorem foldl_max_range' : ∀ (n s x : Nat), x ≤ s → (List.range' s n).foldl max x = if n = 0 then x else s + n - 1
+  | 0, _, _, _ => rfl
+  | n + 1, s, x, h => by
+    simp only [List.range'_succ, List.foldl_cons]
+    rw [Nat.max_eq_right h, foldl_max_range' n (s + 1) s (by omega)]
+    split <;> simp_all
+
+/-- the record of a non-empty group placed as a block: first id … first id + size − 1 -/
+theorem docRange_block (pre grp post : List String) (hnd : grp.Nodup) (hdis : ∀ g ∈ grp, g ∉ pre) (hne : grp ≠ []) :
+    docRange (pre ++ grp ++ post) grp = some (pre.length, pre.length + grp.length - 1) := by
+  unfold docRange
+  rw [gids_block pre grp post hnd hdis]
+  cases grp with
+  | nil => exact absurd rfl hne
+  | cons g gs =>
+    simp only [List.length_cons, List.range'_succ]
+    rw [foldl_min_range' _ _ _ (by omega), foldl_max_range' _ _ _ (by omega)]
+    split <;> simp_all
+
+/-- the records of all non-empty groups, in group order (`for group in reuse_groups: … doc_list.append((…, min(gids), max(gids)))`) -/
+def docRecords (order : List String) (groups : List (List String)) : List (Nat × Nat) :=
+  groups.filterMap (docRange order)
+
+theorem docRecords_blocks : ∀ (groups : List (List String)) (pre : List String),
+    groups.flatten.Nodup → (∀ g ∈ groups.flatten, g ∉ pre) →
+    docRecords (pre ++ groups.flatten) groups = (mkDocs pre.length (groups.map List.length)).map (fun d => (d.start, d.stop))
+  | [], pre, _, _ => by simp [docRecords, mkDocs]
+  | grp :: rest, pre, hnd, hdis => by
+    simp only [List.flatten_cons] at hnd hdis ⊢
+    have hnd2 := List.nodup_append.mp hnd
+    cases hg : grp with
+    | nil =>
+      subst hg
+      simp only [docRecords, List.filterMap_cons, docRange, List.map_nil, List.nil_append, List.map_cons, List.length_nil, mkDocs]
+      have := docRecords_blocks rest pre (by simpa using hnd) (by simpa using hdis)
+      simpa [docRecords] using this
+    | cons g gs =>
+      have hne : grp ≠ [] := by rw [hg]; simp
+      have hblock := docRange_block pre grp rest.flatten hnd2.1 (fun x hx => hdis x (List.mem_append_left _ hx)) hne
+      have ih := docRecords_blocks rest (pre ++ grp) hnd2.2.1 (by
+        intro x hx hm
+        rcases List.mem_append.mp hm with hm | hm
+        · exact hdis x (List.mem_append_right _ hx) hm
+        · exact hnd2.2.2 x hm x hx rfl)
+      rw [← hg]
+      simp only [docRecords, List.filterMap_cons, List.map_cons]
+      rw [← List.append_assoc, hblock]
+      simp only [docRecords, List.append_assoc] at ih
+      have hl : grp.length = gs.length + 1 := by rw [hg]; rfl
+      rw [hl]
+      simp only [mkDocs, List.map_cons]
+      have hh : pre.length + (gs.length + 1) - 1 = pre.length + gs.length := by omega
+      have e : pre.length + gs.length + 1 = (pre ++ grp).length := by simp [hl]; omega
+      rw [hh, e, ← ih, List.append_assoc]
+
+/-- **C07 (SVG document records)** in the glyph order `_ensure_groups_grouped_in_glyph_order` produces (`regroup`), the `(min gid, max gid)` records
+`_picosvg_docs` computes for the reuse groups — duplicate-free groups, glyphs outside every group first — are exactly one block per non-empty
+group, back to back, starting after the untouched glyphs: hence sorted by start glyph and pairwise disjoint (`mkDocs_sorted`). -/
+theorem picosvg_doc_records (old : List String) (groups : List (List String)) (hnd : groups.flatten.Nodup) :
+    docRecords (regroup old groups) groups
+      = (mkDocs (old.filter (fun g => !groups.flatten.contains g)).length (groups.map List.length)).map (fun d => (d.start, d.stop))
+    ∧ docsSortedDisjoint (mkDocs (old.filter (fun g => !groups.flatten.contains g)).length (groups.map List.length)) = true := by
+  refine ⟨?_, mkDocs_sorted _ _⟩
+  unfold regroup
+  apply docRecords_blocks groups _ hnd
+  intro g hg hm
+  have := (List.mem_filter.mp hm).2
+  simp [hg] at this
+
+example : docRecords (regroup [".notdef", "space", "a", "b", "c", "d"] [["d", "b"], [], ["a"]]) [["d", "b"], [], ["a"]] = [(3, 4), (5, 5)] := by decide +kernel
 
 end NanoVerif.C07
